@@ -1,19 +1,25 @@
 ----------------------------- MODULE ShredTrace -----------------------------
 (***************************************************************************)
 (* Trace specification: validates ndjson traces recorded from the REAL     *)
-(* shred library (harness/) against the property definitions of PlanProps. *)
+(* shred library (harness/) against the property definitions of PlanProps  *)
+(* and ExecProps.                                                          *)
 (*                                                                         *)
 (* Registration part.  Placement is LOGGED (observed through the           *)
 (* verif-hooks accessor on the executed list), not recomputed: every `add` *)
 (* must be an append-shaped step of the permissive planner, and the        *)
 (* property predicates are then evaluated by TLC in the resulting state.   *)
-(* A structural impossibility (system not in the executed list, layout     *)
-(* rewritten) sets `dead` (reported by InvStruct, property C04); every     *)
+(*                                                                         *)
+(* Execution part.  `fetch` / `finish` / `panic` events of self-           *)
+(* identifying harness systems (logged while they hold their guards) move  *)
+(* the systems through idle -> run -> done|pan; the spec recomputes every  *)
+(* value a system writes from the values of what it declared to read.      *)
+(*                                                                         *)
+(* A structural impossibility sets `dead` (InvStruct, property C04); every *)
 (* other disagreement clears one flag of `ok`, named after its property.   *)
 (* The trace is always consumed to the end (POSTCONDITION Accepted); an    *)
 (* unconsumed trace is a tool error, never a verdict.                      *)
 (***************************************************************************)
-EXTENDS PlanProps, TLC, Json, IOUtils
+EXTENDS ExecProps, TLC, Json, IOUtils
 
 Rec == ndJsonDeserialize(IOEnv.TRACE)
 
@@ -31,34 +37,53 @@ VARIABLES
   ok,     \* flags, one per (aspect of a) property
   ref,    \* C19: placements of variant 0 of the current program
   refi,   \* C19: number of placements seen in this variant
-  var     \* current variant number
+  var,    \* current variant number
+  owner,  \* builder -> gid of the batch that owns it (0: top level)
+  \* ---- execution part
+  st,     \* gid -> "idle" | "run" | "done" | "pan"
+  runs,   \* gid -> number of completed runs in the current top-level dispatch
+  dsp,    \* builder -> [on, mode, th]  state of that dispatcher instance
+  world,  \* resource -> value, as computed by the SPEC from the logged steps
+  w0      \* world at the beginning of the current top-level dispatch
 
-vars == <<l, dead, lay, names, epoch, since, tls, regs, pos, last, ok, ref, refi, var>>
+pvars == <<dead, lay, names, epoch, since, tls, regs, pos, last, ref, refi, var, owner>>
+xvars == <<st, runs, dsp, world, w0>>
+vars == <<l, pvars, ok, xvars>>
 
 ToSet(s) == {s[i] : i \in DOMAIN s}
 Ev == Rec[l]
 Is(e) == l <= Len(Rec) /\ Ev.ev = e /\ l' = l + 1
 
-OkInit == [c18 |-> TRUE, c20 |-> TRUE, c19 |-> TRUE, built |-> TRUE, c10mt |-> TRUE, c12s |-> TRUE]
+OkInit == [c18 |-> TRUE, c20 |-> TRUE, c19 |-> TRUE, built |-> TRUE, c10mt |-> TRUE, c12s |-> TRUE,
+           c04 |-> TRUE, c05 |-> TRUE, c07 |-> TRUE, c12 |-> TRUE, c14 |-> TRUE]
 
 Init == /\ l = 1 /\ dead = FALSE /\ lay = <<>> /\ names = <<>> /\ epoch = <<>> /\ since = <<>>
         /\ tls = <<>> /\ regs = <<>> /\ pos = <<>> /\ last = 0 /\ ok = OkInit
-        /\ ref = <<>> /\ refi = 0 /\ var = 0
+        /\ ref = <<>> /\ refi = 0 /\ var = 0 /\ owner = <<>>
+        /\ st = <<>> /\ runs = <<>> /\ dsp = <<>> /\ world = <<>> /\ w0 = <<>>
 
 TrReset ==
   /\ Is("reset")
   /\ dead' = FALSE /\ lay' = <<>> /\ names' = <<>> /\ epoch' = <<>> /\ since' = <<>>
   /\ tls' = <<>> /\ regs' = <<>> /\ pos' = <<>> /\ last' = 0 /\ ok' = OkInit
   /\ ref' = IF Ev.var = 0 THEN <<>> ELSE ref
-  /\ refi' = 0 /\ var' = Ev.var
+  /\ refi' = 0 /\ var' = Ev.var /\ owner' = <<>>
+  /\ st' = <<>> /\ runs' = <<>> /\ dsp' = <<>> /\ world' = <<>> /\ w0' = <<>>
+
+(***************************************************************************)
+(* REGISTRATION                                                            *)
+(***************************************************************************)
+DspOff == [on |-> FALSE, mode |-> "none", th |-> 0, auto |-> 0, isauto |-> FALSE]
 
 TrNew ==
   /\ Is("new")
-  /\ IF Ev.b # Len(lay) + 1 THEN dead' = TRUE /\ UNCHANGED <<lay, names, epoch, since, tls>>
+  /\ IF dead \/ Ev.b # Len(lay) + 1 THEN
+        dead' = TRUE /\ UNCHANGED <<lay, names, epoch, since, tls, owner, dsp>>
      ELSE /\ lay' = Append(lay, <<>>) /\ names' = Append(names, <<>>)
           /\ epoch' = Append(epoch, 0) /\ since' = Append(since, FALSE) /\ tls' = Append(tls, <<>>)
+          /\ owner' = Append(owner, 0) /\ dsp' = Append(dsp, DspOff)
           /\ UNCHANGED dead
-  /\ UNCHANGED <<regs, pos, last, ok, ref, refi, var>>
+  /\ UNCHANGED <<regs, pos, last, ok, ref, refi, var, st, runs, world, w0>>
 
 \* append-shaped placement of a new id in a layout
 PlaceOK(ly, p) ==
@@ -73,50 +98,59 @@ Placed1(ly, p, id) ==
 
 Members(b) == {x \in DOMAIN regs : regs[x].b = b /\ regs[x].kind # "rejected"}
 NoReg(e, kind) == [b |-> e.b, r |-> {}, w |-> {}, d |-> <<>>, t |-> 0, e |-> 0, nm |-> <<>>,
-                   kind |-> kind, inner |-> 0, n |-> 0]
+                   kind |-> kind, inner |-> 0, n |-> 0, rs |-> <<>>, ws |-> <<>>]
+\* sequences actually read / written by the harness system, ascending (as logged)
+ReadSeq(e) == SelectSeq(e.r, LAMBDA x : x \notin ToSet(e.w))
+
+Rejected(e) ==
+  /\ regs' = Append(regs, NoReg(e, "rejected")) /\ pos' = Append(pos, <<0, 0, 0>>)
+  /\ dead' = (e.nnew # 0)    \* a rejected call that nevertheless inserted is no longer trackable
+  /\ UNCHANGED <<lay, names, epoch, since, tls, last, ref, refi, var, owner>>
 
 \* add / add_batch
 TrAdd ==
   /\ (Is("add") \/ Is("batch"))
-  /\ IF dead THEN UNCHANGED <<dead, lay, names, epoch, since, tls, regs, pos, last, ok, ref, refi, var>>
+  /\ UNCHANGED xvars
+  /\ IF dead THEN UNCHANGED <<pvars, ok>>
      ELSE
      LET e == Ev
          b == e.b
          id == e.id
          isBatch == e.ev = "batch"
-         unknown == {i \in DOMAIN e.deps : e.deps[i] \notin DOMAIN names[b]}
+     IN
+     IF id # Len(regs) + 1 \/ b \notin DOMAIN lay \/ (isBatch /\ e.inner \notin DOMAIN lay) THEN
+        dead' = TRUE /\ UNCHANGED <<lay, names, epoch, since, tls, regs, pos, last, ok, ref, refi, var, owner>>
+     ELSE
+     LET unknown == {i \in DOMAIN e.deps : e.deps[i] \notin DOMAIN names[b]}
          dup == e.name # <<>> /\ e.name \in DOMAIN names[b]
          ill == unknown # {} \/ dup
      IN
-     IF id # Len(regs) + 1 \/ b \notin DOMAIN lay THEN
-        dead' = TRUE /\ UNCHANGED <<lay, names, epoch, since, tls, regs, pos, last, ok, ref, refi, var>>
-     ELSE IF ill THEN
+     IF ill THEN
         \* C18: must panic, quoting an offending name, and change nothing
         /\ ok' = [ok EXCEPT !.c18 = @ /\ e.nnew = 0 /\ e.place = <<>> /\
                      ( \/ (e.out = "unknown" /\ \E i \in unknown : e.quoted = e.deps[i])
                        \/ (e.out = "dup" /\ dup /\ e.quoted = e.name) )]
-        /\ regs' = Append(regs, NoReg(e, "rejected")) /\ pos' = Append(pos, <<0, 0, 0>>)
-        /\ dead' = (e.nnew # 0)       \* a rejected call that nevertheless inserted: no longer trackable
-        /\ UNCHANGED <<lay, names, epoch, since, tls, last, ref, refi, var>>
+        /\ Rejected(e)
      ELSE IF e.out # "ok" THEN
         \* C18: a well-formed call must not panic
         /\ ok' = [ok EXCEPT !.c18 = FALSE]
-        /\ regs' = Append(regs, NoReg(e, "rejected")) /\ pos' = Append(pos, <<0, 0, 0>>)
-        /\ dead' = (e.nnew # 0)
-        /\ UNCHANGED <<lay, names, epoch, since, tls, last, ref, refi, var>>
+        /\ Rejected(e)
      ELSE IF ~(e.nnew = 1 /\ e.stable /\ PlaceOK(lay[b], e.place)) THEN
         \* C04: the system is not (exactly once, appended) in the executed list
-        dead' = TRUE /\ UNCHANGED <<lay, names, epoch, since, tls, regs, pos, last, ok, ref, refi, var>>
+        dead' = TRUE /\ UNCHANGED <<lay, names, epoch, since, tls, regs, pos, last, ok, ref, refi, var, owner>>
      ELSE
         LET deps == [i \in DOMAIN e.deps |-> names[b][e.deps[i]]]
             inner == IF isBatch THEN Members(e.inner) ELSE {}
+            \* C07: access of a batch = controller's data + everything inside, at any depth
+            \* (inner batches already carry their union)
             R == ToSet(e.r) \cup UNION {regs[x].r : x \in inner}
             W == ToSet(e.w) \cup UNION {regs[x].w : x \in inner}
         IN
         /\ regs' = Append(regs, [b |-> b, r |-> R, w |-> W, d |-> deps, t |-> e.t, e |-> epoch[b],
                                   nm |-> e.name, kind |-> IF isBatch THEN "batch" ELSE "plain",
                                   inner |-> IF isBatch THEN e.inner ELSE 0,
-                                  n |-> IF isBatch THEN e.n ELSE 0])
+                                  n |-> IF isBatch THEN e.n ELSE 0,
+                                  rs |-> ReadSeq(e), ws |-> e.w])
         /\ pos' = Append(pos, e.place)
         /\ lay' = [lay EXCEPT ![b] = Placed1(@, e.place, id)]
         /\ names' = IF e.name = <<>> THEN names ELSE [names EXCEPT ![b] = (e.name :> id) @@ @]
@@ -124,6 +158,7 @@ TrAdd ==
         /\ last' = id
         /\ refi' = refi + 1
         /\ ref' = IF var = 0 THEN Append(ref, e.place) ELSE ref
+        /\ owner' = IF isBatch THEN [owner EXCEPT ![e.inner] = id] ELSE owner
         /\ ok' = [ok EXCEPT !.c19 = @ /\ (var = 0 \/ (refi + 1 <= Len(ref) /\ ref[refi + 1] = e.place))]
         /\ UNCHANGED <<dead, epoch, tls, var>>
 
@@ -132,7 +167,7 @@ TrBarrier ==
   /\ IF dead \/ Ev.b \notin DOMAIN lay THEN UNCHANGED <<epoch, since>>
      ELSE /\ epoch' = [epoch EXCEPT ![Ev.b] = IF since[Ev.b] THEN @ + 1 ELSE @]
           /\ since' = [since EXCEPT ![Ev.b] = FALSE]
-  /\ UNCHANGED <<dead, lay, names, tls, regs, pos, last, ok, ref, refi, var>>
+  /\ UNCHANGED <<dead, lay, names, tls, regs, pos, last, ok, ref, refi, var, owner, xvars>>
 
 TrTl ==
   /\ Is("tl")
@@ -140,13 +175,14 @@ TrTl ==
      ELSE LET e == Ev  b == e.b IN
           IF e.id # Len(regs) + 1 \/ b \notin DOMAIN lay \/ e.out # "ok" \/ e.nnew # 1 \/ e.idx = <<>> THEN
              dead' = TRUE /\ UNCHANGED <<tls, regs, pos, ok>>
-          ELSE /\ regs' = Append(regs, [NoReg(e, "tl") EXCEPT !.r = ToSet(e.r), !.w = ToSet(e.w)])
+          ELSE /\ regs' = Append(regs, [NoReg(e, "tl") EXCEPT !.r = ToSet(e.r), !.w = ToSet(e.w),
+                                                              !.rs = ReadSeq(e), !.ws = e.w])
                /\ pos' = Append(pos, <<0, 0, 0>>)
                /\ tls' = [tls EXCEPT ![b] = Append(@, e.id)]
                \* C12 (static half): thread-local systems are kept in registration order
                /\ ok' = [ok EXCEPT !.c12s = @ /\ e.idx[1] = Len(tls[b]) + 1]
                /\ UNCHANGED dead
-  /\ UNCHANGED <<lay, names, epoch, since, last, ref, refi, var>>
+  /\ UNCHANGED <<lay, names, epoch, since, last, ref, refi, var, owner, xvars>>
 
 NameOf(b) == [s \in Placed(lay[b]) |-> regs[s].nm]
 
@@ -154,7 +190,7 @@ TrPrint ==
   /\ Is("print")
   /\ IF dead THEN UNCHANGED ok
      ELSE ok' = [ok EXCEPT !.c20 = @ /\ Ev.out = "ok" /\ C20Printed(Ev.text, lay[Ev.b], NameOf(Ev.b))]
-  /\ UNCHANGED <<dead, lay, names, epoch, since, tls, regs, pos, last, ref, refi, var>>
+  /\ UNCHANGED <<pvars, xvars>>
 
 TrBuilt ==
   /\ Is("built")
@@ -167,30 +203,223 @@ TrBuilt ==
                    !.c10mt = @ /\ (e.parallel => e.maxthreads = MaxWidth(lay[e.b])),
                    \* C19: same number of placements as variant 0
                    !.c19 = @ /\ (var = 0 \/ refi = Len(ref))]
-  /\ UNCHANGED <<dead, lay, names, epoch, since, tls, regs, pos, last, ref, refi, var>>
+  /\ UNCHANGED <<pvars, xvars>>
 
-Known == {"reset", "new", "add", "batch", "barrier", "tl", "print", "built"}
+(***************************************************************************)
+(* EXECUTION                                                               *)
+(***************************************************************************)
+IsTop(b) == owner[b] = 0
+Sys == DOMAIN regs
+
+\* number of times system s must run in one top-level call of the given mode
+RECURSIVE Expected(_, _)
+Expected(s, mode) ==
+  LET b == regs[s].b IN
+  IF regs[s].kind = "rejected" THEN 0
+  ELSE IF IsTop(b) THEN
+     IF regs[s].kind = "tl" THEN (IF mode \in {"disp", "tlonly", "async"} THEN 1 ELSE 0)
+     ELSE (IF mode = "tlonly" THEN 0 ELSE 1)
+  ELSE regs[owner[b]].n * Expected(owner[b], mode)   \* inner dispatches are full dispatches
+
+\* the sequential reference execution (C05): dispatch_seq order of the plan, batches expanded
+RECURSIVE RunList(_, _), RunOne(_, _), Iter(_, _, _)
+RunBuilder(b, mode, wd) ==
+  RunList((IF mode = "tlonly" THEN <<>> ELSE FlatL(lay[b]))
+          \o (IF mode \in {"disp", "tlonly", "async"} THEN tls[b] ELSE <<>>), wd)
+RunList(q, wd) == IF q = <<>> THEN wd ELSE RunList(Tail(q), RunOne(Head(q), wd))
+RunOne(s, wd) ==
+  LET w1 == StepW(s, regs[s].rs, regs[s].ws, wd) IN
+  IF regs[s].kind = "batch" THEN Iter(regs[s].n, regs[s].inner, w1) ELSE w1
+Iter(k, b, wd) == IF k = 0 THEN wd ELSE Iter(k - 1, b, RunBuilder(b, "disp", wd))
+
+WorldOf(e) == [r \in ToSet(e.rid) |-> e.val[CHOOSE i \in DOMAIN e.rid : e.rid[i] = r]]
+
+TrWorld0 ==
+  /\ Is("world0")
+  /\ world' = WorldOf(Ev)
+  /\ UNCHANGED <<pvars, ok, st, runs, dsp, w0>>
+
+TrBegin ==
+  /\ Is("begin")
+  /\ IF dead \/ Ev.d \notin DOMAIN lay THEN UNCHANGED <<ok, xvars>>
+     ELSE LET e == Ev  b == e.d IN
+          /\ dsp' = IF IsTop(b) THEN [x \in DOMAIN dsp |-> IF x = b THEN [DspOff EXCEPT !.on = TRUE, !.mode = e.mode, !.th = e.th] ELSE DspOff]
+                     ELSE [dsp EXCEPT ![b] = [DspOff EXCEPT !.on = TRUE, !.mode = e.mode, !.th = e.th]]
+          /\ UNCHANGED world
+          /\ IF IsTop(b) THEN
+                /\ st' = [s \in Sys |-> "idle"] /\ runs' = [s \in Sys |-> 0] /\ w0' = world
+                /\ UNCHANGED ok
+             ELSE
+                /\ st' = [s \in Sys |-> IF s \in Members(b) THEN "idle" ELSE st[s]]
+                /\ UNCHANGED <<runs, w0>>
+                \* C07: an inner dispatch happens only inside the batch's own window,
+                \*      and never while the previous inner dispatch is still going on
+                /\ ok' = [ok EXCEPT !.c07 = @ /\ st[owner[b]] = "run" /\ ~dsp[b].on]
+  /\ UNCHANGED pvars
+
+\* A batch driven by the library's MultiDispatcher performs its inner dispatches itself:
+\* no begin/end is logged.  The first fetch of a member while rounds remain is the
+\* (implicit) begin of the next inner dispatch; the round ends when every member is done
+\* (see Done below), the batch after the last round.  This under-approximates the batch's
+\* real window, which is the sound direction.
+AutoBegin(b) == ~IsTop(b) /\ dsp[b].isauto /\ ~dsp[b].on /\ dsp[b].auto > 0 /\ st[owner[b]] = "run"
+
+TrFetch ==
+  /\ Is("fetch")
+  /\ IF dead \/ Ev.s \notin Sys THEN UNCHANGED <<ok, xvars>>
+     ELSE LET e == Ev  s == e.s  b == regs[s].b  k == regs[s].kind
+              ab == AutoBegin(b)
+              st0 == IF ab THEN [x \in Sys |-> IF x \in Members(b) THEN "idle" ELSE st[x]] ELSE st
+              dsp0 == IF ab THEN [dsp EXCEPT ![b].on = TRUE, ![b].mode = "disp", ![b].th = e.th, ![b].auto = @ - 1] ELSE dsp
+          IN
+          /\ st' = [st0 EXCEPT ![s] = "run"]
+          /\ dsp' = dsp0
+          /\ UNCHANGED <<runs, world, w0>>
+          /\ ok' = [ok EXCEPT
+                \* C04: a system starts only from idle, inside a dispatch of its dispatcher
+                !.c04 = @ /\ st0[s] = "idle" /\ dsp0[b].on /\ Expected(s, dsp0[b].mode) > 0,
+                \* C12: thread-local systems run on the thread that called dispatch - never
+                \* on a pool worker -, after every other system of that dispatch, one at a
+                \* time in registration order
+                !.c12 = @ /\ (k = "tl" =>
+                               /\ e.th = dsp0[b].th
+                               /\ e.th = 0
+                               /\ (\A m \in Members(b) : (regs[m].kind \in {"plain", "batch"} /\ Expected(m, dsp0[b].mode) > 0)
+                                                        => st0[m] = "done")
+                               /\ \A i \in DOMAIN tls[b] :
+                                    st0[tls[b][i]] = (IF i < (CHOOSE j \in DOMAIN tls[b] : tls[b][j] = s) THEN "done" ELSE "idle"))]
+  /\ UNCHANGED pvars
+
+\* mark s done and propagate the implicit ends of MultiDispatcher rounds / batches
+RECURSIVE Done(_, _)
+Done(X, s) ==
+  LET st1 == [X.st EXCEPT ![s] = "done"]
+      runs1 == [X.runs EXCEPT ![s] = @ + 1]
+      b == regs[s].b
+      X1 == [st |-> st1, runs |-> runs1, dsp |-> X.dsp]
+  IN IF X.dsp[b].isauto /\ X.dsp[b].on /\ \A m \in Members(b) : st1[m] = "done"
+     THEN LET X2 == [X1 EXCEPT !.dsp[b].on = FALSE]
+          IN IF X.dsp[b].auto = 0 THEN Done(X2, owner[b]) ELSE X2
+     ELSE X1
+XNow == [st |-> st, runs |-> runs, dsp |-> dsp]
+
+TrFinish ==
+  /\ Is("finish")
+  /\ IF dead \/ Ev.s \notin Sys THEN UNCHANGED <<ok, xvars>>
+     ELSE LET e == Ev  s == e.s
+              w1 == IF regs[s].kind = "batch" THEN world ELSE StepW(s, regs[s].rs, regs[s].ws, world)
+              X == Done(XNow, s) IN
+          /\ st' = X.st /\ runs' = X.runs /\ dsp' = X.dsp
+          /\ world' = w1
+          /\ UNCHANGED w0
+          /\ ok' = [ok EXCEPT
+                !.c04 = @ /\ st[s] = "run",
+                \* C05: what the system wrote is a function of what it declared to read,
+                \* evaluated on the spec's world (nobody else may have touched it meanwhile)
+                !.c05 = @ /\ (regs[s].kind # "batch" => e.nv = [i \in DOMAIN regs[s].ws |-> w1[regs[s].ws[i]]]),
+                \* C07: the batch ends only when its inner dispatch has ended
+                !.c07 = @ /\ (regs[s].kind = "batch" => ~dsp[regs[s].inner].on)]
+  /\ UNCHANGED pvars
+
+\* MultiDispatcher: the controller planned n inner dispatches
+TrMulti ==
+  /\ Is("multi")
+  /\ IF dead \/ Ev.s \notin Sys THEN UNCHANGED <<ok, xvars>>
+     ELSE LET e == Ev  s == e.s  ib == regs[s].inner
+              dsp1 == [dsp EXCEPT ![ib] = [DspOff EXCEPT !.auto = e.n, !.isauto = TRUE]]
+              X == IF e.n = 0 \/ Members(ib) = {} THEN Done([st |-> st, runs |-> runs, dsp |-> dsp1], s)
+                   ELSE [st |-> st, runs |-> runs, dsp |-> dsp1] IN
+          /\ st' = X.st /\ runs' = X.runs /\ dsp' = X.dsp
+          /\ UNCHANGED <<world, w0>>
+          \* C04: the planned number of inner dispatches is the registered one
+          /\ ok' = [ok EXCEPT !.c04 = @ /\ regs[s].kind = "batch" /\ st[s] = "run" /\ e.n = regs[s].n]
+  /\ UNCHANGED pvars
+
+\* the controller of a batch used its declared data (before any inner dispatch)
+TrCtl ==
+  /\ Is("ctl")
+  /\ IF dead \/ Ev.s \notin Sys THEN UNCHANGED <<ok, xvars>>
+     ELSE LET e == Ev  s == e.s
+              w1 == StepW(s, regs[s].rs, regs[s].ws, world) IN
+          /\ world' = w1
+          /\ UNCHANGED <<st, runs, dsp, w0>>
+          /\ ok' = [ok EXCEPT !.c05 = @ /\ st[s] = "run" /\ e.nv = [i \in DOMAIN regs[s].ws |-> w1[regs[s].ws[i]]]]
+  /\ UNCHANGED pvars
+
+TrPanic ==
+  /\ Is("panic")
+  /\ IF dead \/ Ev.s \notin Sys THEN UNCHANGED <<ok, xvars>>
+     ELSE /\ st' = [st EXCEPT ![Ev.s] = "pan"]
+          /\ ok' = [ok EXCEPT !.c04 = @ /\ st[Ev.s] = "run"]
+          /\ UNCHANGED <<runs, dsp, world, w0>>
+  /\ UNCHANGED pvars
+
+Pans == {s \in Sys : st[s] = "pan"}
+
+TrEnd ==
+  /\ Is("end")
+  /\ IF dead \/ Ev.d \notin DOMAIN lay THEN UNCHANGED <<ok, xvars>>
+     ELSE LET e == Ev  b == e.d  mode == dsp[b].mode IN
+          /\ dsp' = [dsp EXCEPT ![b] = DspOff]
+          /\ UNCHANGED <<st, runs, world, w0>>
+          /\ IF ~IsTop(b) THEN
+                \* C04/C07: one inner dispatch ran every system of the batch exactly once
+                ok' = [ok EXCEPT !.c04 = @ /\ dsp[b].on /\ \A m \in Members(b) : st[m] = "done"]
+             ELSE IF e.res = "ok" THEN
+                ok' = [ok EXCEPT
+                   \* C04: every system ran exactly as often as the plan says
+                   !.c04 = @ /\ dsp[b].on /\ Pans = {}
+                               /\ (\A s \in Sys : runs[s] = Expected(s, mode) /\ st[s] \in {"idle", "done"})
+                               /\ (\A s \in Sys : Expected(s, mode) > 0 => st[s] = "done"),
+                   \* C05: the world the harness reads back = the spec's world = the
+                   \* sequential execution of the plan from the world before the dispatch
+                   !.c05 = @ /\ WorldOf(e) = world /\ world = RunBuilder(b, mode, w0),
+                   \* C14 (also for clean dispatches): nothing left borrowed
+                   !.c14 = @ /\ e.free]
+             ELSE
+                ok' = [ok EXCEPT
+                   \* C14: the payload is that of a panicking system; nothing ran twice; no
+                   \* (transitive) dependent of a panicking system ran; nothing left borrowed
+                   !.c14 = @ /\ e.who \in Pans /\ e.free
+                               /\ (\A s \in Sys : runs[s] <= Expected(s, mode))
+                               /\ (\A s \in Sys : \A p \in Pans : (regs[s].b = regs[p].b /\ DependsOn(regs, s, p)) => st[s] = "idle"),
+                   !.c05 = @ /\ WorldOf(e) = world]
+  /\ UNCHANGED pvars
+
+Known == {"reset", "new", "add", "batch", "barrier", "tl", "print", "built",
+          "world0", "begin", "fetch", "finish", "ctl", "multi", "panic", "end"}
 TrSkip ==
   /\ l <= Len(Rec) /\ Ev.ev \notin Known /\ l' = l + 1
-  /\ UNCHANGED <<dead, lay, names, epoch, since, tls, regs, pos, last, ok, ref, refi, var>>
+  /\ UNCHANGED <<pvars, ok, xvars>>
 
-Next == TrReset \/ TrNew \/ TrAdd \/ TrBarrier \/ TrTl \/ TrPrint \/ TrBuilt \/ TrSkip
+Next == \/ TrReset \/ TrNew \/ TrAdd \/ TrBarrier \/ TrTl \/ TrPrint \/ TrBuilt
+        \/ TrWorld0 \/ TrBegin \/ TrFetch \/ TrFinish \/ TrCtl \/ TrMulti \/ TrPanic \/ TrEnd \/ TrSkip
 Spec == Init /\ [][Next]_vars
 
-\* ---- property invariants (incremental forms on the last placed system) -------
+\* ---- property invariants ----------------------------------------------------------
+\* registration: incremental forms on the last placed system
 LB == lay[regs[last].b]
 Live == ~dead /\ last # 0
 InvStruct == ~dead
-InvC01 == Live => C01At(regs, LB, pos, last)
-InvC02 == Live => C02At(regs, pos, last)
-InvC03 == Live => C03At(regs, LB, pos, last)
-InvC04 == ~dead /\ ok.built
+InvC01s == Live => C01At(regs, LB, pos, last)
+InvC02s == Live => C02At(regs, pos, last)
+InvC03s == Live => C03At(regs, LB, pos, last)
+InvC04s == ~dead /\ ok.built
 InvC10 == (Live => C10At(regs, LB, pos, last)) /\ ok.c10mt
 InvCap == Live => CapOK(LB, 5)
 InvC12s == ok.c12s
 InvC18 == ok.c18
 InvC19 == ok.c19
 InvC20 == ok.c20 /\ ok.built
+\* execution
+InvC01x == dead \/ C01Run(regs, owner, st)
+InvC02x == dead \/ C02Run(regs, st)
+InvC03x == dead \/ C03Run(regs, st)
+InvC04x == ok.c04
+InvC05 == ok.c05
+InvC07 == ok.c07
+InvC12 == ok.c12
+InvC14 == ok.c14
 
 Accepted ==
   IF TLCGet("stats").diameter = Len(Rec) + 1 THEN TRUE
